@@ -30,6 +30,8 @@ type ops20 struct {
 	unmarshal  func(doc []byte, direct bool) (sx.V, error)
 	mMarshal   func(val sx.V) ([]byte, error) // tlb.Maybe[T]; val = 'none | (some v)
 	mUnmarshal func(doc []byte, direct bool) (sx.V, error)
+	// reuse: Unmarshal into a receiver that already holds the value prev
+	reuse func(prev sx.V, doc []byte, direct bool) (sx.V, error)
 }
 
 type jsonPtr20[T any] interface {
@@ -42,6 +44,19 @@ func mkOps20[T any, P jsonPtr20[T]](from func(sx.V) T, to func(*T) sx.V) ops20 {
 		marshal: func(v sx.V) ([]byte, error) { return json.Marshal(from(v)) },
 		unmarshal: func(doc []byte, direct bool) (sx.V, error) {
 			var x T
+			var err error
+			if direct {
+				err = P(&x).UnmarshalJSON(doc)
+			} else {
+				err = json.Unmarshal(doc, &x)
+			}
+			if err != nil {
+				return sx.V{}, err
+			}
+			return to(&x), nil
+		},
+		reuse: func(prev sx.V, doc []byte, direct bool) (sx.V, error) {
+			x := from(prev)
 			var err error
 			if direct {
 				err = P(&x).UnmarshalJSON(doc)
@@ -168,12 +183,16 @@ func writerBitString20(bits string, slack int) boc.BitString {
 func addrFromSx20(v sx.V) tlb.MsgAddress { return addrFromSxSlack20(v, 0) }
 
 func addrFromSxSlack20(v sx.V, slack int) tlb.MsgAddress {
+	return addrFromSxWith20(v, func(bits string) boc.BitString { return writerBitString20(bits, slack) })
+}
+
+func addrFromSxWith20(v sx.V, mk func(bits string) boc.BitString) tlb.MsgAddress {
 	var a tlb.MsgAddress
 	switch v.Head() {
 	case "none":
 		a.SumType = "AddrNone"
 	case "ext":
-		bs := writerBitString20(v.List[1].Bits, slack)
+		bs := mk(v.List[1].Bits)
 		a.SumType = "AddrExtern"
 		a.AddrExtern = &bs
 	case "std":
@@ -187,7 +206,7 @@ func addrFromSxSlack20(v sx.V, slack int) tlb.MsgAddress {
 			Anycast:     anyFromSx20(v.List[1]),
 			AddrLen:     tlb.Uint9(v.List[2].U64()),
 			WorkchainId: int32(v.List[3].Int.Int64()),
-			Address:     writerBitString20(v.List[4].Bits, slack),
+			Address:     mk(v.List[4].Bits),
 		}
 	}
 	return a
@@ -277,12 +296,13 @@ func lookup20(fam string, arg sx.V) (ops20, bool) {
 			o, ok = c20Single["cell"]
 		}
 	case "bitstring":
-		// arg = free bits left in the write buffer (capacity - length)
-		slack := arg.I()
-		o, ok = mkOps20(func(v sx.V) boc.BitString { return writerBitString20(v.Bits, slack) }, func(x *boc.BitString) sx.V { return sx.Bits(bitsOf(x)) }), true
+		// arg = free bits left in the write buffer (capacity - length), or
+		// (pre tail): the value is read with ReadBits out of pre ++ value ++ tail
+		mk := bitStringMaker20(arg)
+		o, ok = mkOps20(func(v sx.V) boc.BitString { return mk(v.Bits) }, func(x *boc.BitString) sx.V { return sx.Bits(bitsOf(x)) }), true
 	case "addr":
-		slack := arg.I()
-		o, ok = mkOps20(func(v sx.V) tlb.MsgAddress { return addrFromSxSlack20(v, slack) }, addrToSx20), true
+		mk := bitStringMaker20(arg)
+		o, ok = mkOps20(func(v sx.V) tlb.MsgAddress { return addrFromSxWith20(v, mk) }, addrToSx20), true
 	default:
 		o, ok = c20Single[fam]
 	}
@@ -542,6 +562,7 @@ func (k case20) run(c *Ctx, nMut int) {
 			c.Fail(kind, pin, key, fmt.Sprintf("value %s printed as %s parses back as %s", k.val, doc, back))
 		}
 	}
+	k.reuse(c, doc)
 	for i := 0; i < nMut; i++ {
 		m := mutate20(r, doc)
 		if r.Chance(25) {
@@ -964,6 +985,7 @@ func genC20(c *Ctx) {
 		}
 	}
 	genC20Envelopes(c)
+	genC20R4(c)
 	genC20Scanner(c)
 	// an empty external address under Maybe is the same known finding
 	{
